@@ -85,6 +85,23 @@ class Boom(Exception):
     pass
 
 
+def user_snapshot():
+    """Identity of every attribute of the user-level module holding the @onnx_function targets and of its classes."""
+    from vf import blocks
+
+    s = {}
+    for k, v in list(vars(blocks).items()):
+        if k.startswith("__") and k.endswith("__"):
+            continue
+        s[("blocks", k)] = id(v)
+        if inspect.isclass(v) and getattr(v, "__module__", "") == blocks.__name__:
+            for kk, vv in list(vars(v).items()):
+                if kk.startswith("__") and kk.endswith("__") and kk not in ("__call__", "__init__"):
+                    continue
+                s[("blocks." + k, kk)] = id(vv)
+    return s
+
+
 def _probes():
     import jax
     import jax.numpy as jnp
@@ -205,10 +222,18 @@ def work(sh):
             self.user_objs = []
             self.had_failure = False
             self.had_nested = False
+            self.user_ns = user_snapshot()
 
         def _after(self, label):
             self.history.append(label)
             bad = invariant(self.history, self.converted, self.user_objs, label)
+            # user-level namespace (module of the decorated targets and their classes): only the rebind rule may change it
+            us = user_snapshot()
+            if not label.startswith("rebind_user_target") and getattr(self, "user_ns", None) is not None:
+                chg = [k for k in self.user_ns if us.get(k) != self.user_ns[k]] + [k for k in us if k not in self.user_ns]
+                if chg:
+                    bad.append(("user_namespace", f"{len(chg)} attributes of the user's module/classes changed, first: {chg[0]}"))
+            self.user_ns = us
             nt = self.had_failure or self.had_nested
             acc.case(key=digest(self.history), nontrivial=nt)
             acc.tally("rules", label.split(":")[0])
@@ -338,6 +363,25 @@ def work(sh):
                         pass
             acc.tally("patch_fault_outcome", res)
             self._after(f"patch_stack_fault:{where}:{what}")
+
+        @rule(which=st.sampled_from(["ClsFn", "NnxFn", "EqxFn", "ClsUniq"]))
+        def rebind_user_target(self, which):
+            """The user instruments a decorated class between conversions (wraps its __call__)."""
+            import functools
+
+            cls = getattr(blocks, which)
+            orig = cls.__dict__.get("__call__") or cls.__call__
+
+            @functools.wraps(orig)
+            def counted_call(self_, *a, **k):
+                return orig(self_, *a, **k)
+
+            try:
+                cls.__call__ = counted_call
+            except Exception:
+                pass
+            self.had_nested = True
+            self._after(f"rebind_user_target:{which}")
 
         @rule()
         def eager_calls(self):
